@@ -70,7 +70,7 @@ def gen_rule_for(rng, world, name, depth=None):
         d = [d for d in world['defaults'] if d['name'] == pick][0]
         a = copy.deepcopy(d['ast'])
         if not (rast.refs(a) - set(_ref_pool(world, name))):
-            return ['paren', a] if rng.random() < 0.4 else a
+            return ['paren', a] if rng.random() < 0.4 and a[0] != 'empty' else a
     if succ and rng.random() < 0.12:
         d = [d for d in world['defaults'] if d['name'] == succ[0]][0]
         if rng.random() < 0.5:
@@ -78,6 +78,8 @@ def gen_rule_for(rng, world, name, depth=None):
             return copy.deepcopy(d['dep']['ast'])
         # the same check in another spelling (redundant parentheses): NOT
         # textually equal, so it governs like any other override
+        if d['dep']['ast'][0] == 'empty':
+            return ['true']          # '@' is another spelling of ''
         return ['paren', copy.deepcopy(d['dep']['ast'])]
     regd = [d for d in world['defaults'] if d['name'] == name]
     if regd and rng.random() < 0.1:
@@ -85,7 +87,9 @@ def gen_rule_for(rng, world, name, depth=None):
         # rule, possibly in another spelling): still a definition of its
         # layer, and still an operator override for deprecation handling
         a = copy.deepcopy(regd[0]['ast'])
-        return ['paren', a] if rng.random() < 0.3 else a
+        return ['paren', a] if rng.random() < 0.3 and a[0] != 'empty' else a
+    if rng.random() < 0.04:
+        return ['empty']             # "name": ""  - allow all
     if depth is None:
         depth = rng.choice((0, 0, 1, 1, 2, 3))
     return rast.gen(rng, roles, _ref_pool(world, name), depth)
@@ -126,6 +130,8 @@ def gen_world(rng, flavour):
         w['defaults'].append(d)
         d['ast'] = rast.gen(rng, w['roles'], _ref_pool(w, name),
                             rng.choice((0, 0, 1, 2)))
+        if rng.random() < 0.04:
+            d['ast'] = ['empty']
         if rng.random() < dep_p:
             if rng.random() < 0.7:
                 old = OLD_NAMES[0] if rng.random() < 0.7 else OLD_NAMES[1]
@@ -144,6 +150,8 @@ def gen_world(rng, flavour):
                     # precede every successor
                     a = rast.gen(rng, w['roles'], _ref_pool(w, name),
                                  rng.choice((0, 0, 1, 2)))
+                    if rng.random() < 0.08:
+                        a = ['empty']    # the old default allowed everybody
                 d['dep'] = {'name': old, 'ast': a, 'group': ngroups}
                 ngroups += 1
                 if old != name:
